@@ -188,6 +188,57 @@ def value_clauses(sc, results, values, full):
     return bad
 
 
+def empty_bodies(ctx):
+    """the empty body (no chunk at all, or only empty messages): b"" is a body like any other - cached, replayed, consumed once"""
+    import baize.wsgi as W
+    import baize.asgi as A
+    seqs = [p for n in (1, 2, 3) for p in itertools.product(("body", "stream"), repeat=n)]
+    for iface in ("wsgi", "asgi"):
+        for variant in ("content-length 0", "no content-length", "two empty messages"):
+            if iface == "wsgi" and variant == "two empty messages":
+                continue
+            for prog in seqs:
+                if iface == "wsgi":
+                    hs = [("Content-Length", "0")] if variant == "content-length 0" else []
+                    req = W.Request(servers.make_environ(servers.Req(method="POST", headers=hs, chunks=[])))
+                    do = {"body": lambda: req.body, "stream": lambda: b"".join(req.stream())}
+                else:
+                    msgs = [{"type": "http.request", "body": b"", "more_body": True}, {"type": "http.request", "body": b""}] \
+                        if variant == "two empty messages" else [{"type": "http.request"}]
+                    hs = [("Content-Length", "0")] if variant == "content-length 0" else []
+
+                    async def receive(msgs=msgs):
+                        return msgs.pop(0) if msgs else {"type": "http.disconnect"}
+                    req = A.Request(servers.make_scope(servers.Req(method="POST", headers=hs)), receive, None)
+
+                    async def abody():
+                        return await req.body
+
+                    async def astream():
+                        return b"".join([c async for c in req.stream()])
+                    do = {"body": lambda: servers.loop().run_until_complete(abody()), "stream": lambda: servers.loop().run_until_complete(astream())}
+                got = []
+                for op in prog:
+                    try:
+                        got.append(do[op]())
+                    except BaseException as e:  # noqa
+                        got.append(classify(e))
+                # the documented behaviour, as for any other body
+                want, streamed, cached = [], False, False
+                for op in prog:
+                    if op == "body":
+                        want.append("RuntimeError" if (streamed and not cached) else b"")
+                        cached = cached or not streamed
+                    else:
+                        want.append(b"" if (cached or not streamed) else "RuntimeError")
+                        streamed = True
+                ctx.count()
+                if got != want:
+                    ctx.violation({"iface": iface, "empty_body": variant, "accesses": list(prog)}, [w if isinstance(w, str) else "b''" for w in want],
+                                  [g if isinstance(g, str) else repr(g) for g in got], "the empty request body is not cached / replayed / consumed like any other body")
+                ctx.nontriv(("empty", iface, variant, prog))
+
+
 def run(ctx):
     scs = scenarios(ctx.tier)
     ctx.bounds = {"scenarios": len(scs)}
@@ -334,6 +385,7 @@ def run(ctx):
             if bad:
                 ctx.violation(case, "the whole body or an error, nothing beyond CONTENT_LENGTH", {"results": results[0]}, bad)
             ctx.nontriv(("wsgi-len", label) + tuple(sorted((k, str(v)) for k, v in sc.items())))
+    empty_bodies(ctx)
     ctx.exhaustive = True
 
 
